@@ -133,6 +133,30 @@ def run_c03(res, tier, seed):
         new_texts = list(texts)
         new_texts[k] = render_tokens(vt)
         cases.append((items, texts, new_texts, k, [lg, f"long victim ({n} statements/variants)"]))
+    # calls whose last argument is a brace construct that ends in a call (lambda, block, case): every single deletion of a
+    # non-brace token - a missing `)` puts the `}` of the inner construct in front of the outer call's `)`
+    NESTED = [
+        "pub fn nest ( xs ) { map ( xs , fn ( x ) { twice ( x ) } ) }",
+        "pub fn nest ( a ) { scale ( { let b = a half ( b ) } ) }",
+        "pub fn nest ( n ) { show ( case n { 0 -> zero ( ) _ -> other ( n ) } ) }",
+        "pub fn nest ( xs ) { xs |> each ( fn ( x ) { io . debug ( x ) } ) }",
+        "pub fn nest ( r ) { use v <- try ( parse ( r ) ) wrap ( fn ( ) { done ( v ) } ) }",
+    ]
+    for _ in range(6 if tier == "quick" else 60):
+        toks = rng.choice(NESTED).split(" ")
+        victim = ("N", "FUNCTION", [("T", t) for t in toks])
+        others = build_file(rng, rng.randrange(2, 5))
+        k = rng.randrange(0, len(others))
+        items = others[:k] + [victim] + others[k:]
+        texts = [render_tokens(gen_gleam.tokens(it)) for it in items]
+        lo = toks.index("{") + 1
+        hi = len(toks) - 1
+        for i in range(lo, hi):
+            if toks[i] in BRACES:
+                continue
+            new_texts = list(texts)
+            new_texts[k] = render_tokens(toks[:i] + toks[i + 1:])
+            cases.append((items, texts, new_texts, k, [f"delete {toks[i]!r} at {i}", "call ending a brace construct that is the last argument of a call"]))
     # the recorded findings' own inputs, replayed on every run (a finding that stops failing stops being printed)
     for f in common.known_findings().get("findings", []):
         ex = (f.get("example") or {}).get("input") or {}
@@ -206,6 +230,12 @@ def run_c03(res, tier, seed):
         areqs.append(f"ancestors\t{hexs(text)}\t{offs[v][1] - 1}")
         nxt = offs[v + 1][0] if v + 1 < len(offs) else offs[v][1]
         areqs.append(f"ancestors\t{hexs(text)}\t{nxt}")
+    # the cause rather than the consequence: the first `}` of the victim that some construct took without having opened it
+    sreqs = []
+    for (idx, bad, offs) in follow:
+        items, texts, new_texts, v, log = cases[idx]
+        sreqs.append(f"swallowed\t{hexs(chr(10).join(new_texts))}\t{offs[v][0]}\t{offs[v][1] - 1}")
+    sout, _ = common.run_lines(common.HARNESS_BIN, sreqs) if sreqs else ([], 0)
     aout, _ = common.run_lines(common.HARNESS_BIN, areqs) if areqs else ([], 0)
     for j, (idx, bad, offs) in enumerate(follow):
         items, texts, new_texts, v, log = cases[idx]
@@ -224,6 +254,10 @@ def run_c03(res, tier, seed):
         # brace still closes the victim, the construct that swallowed the first token of the next definition
         proper = brace[:2] in (["BLOCK", "FUNCTION"], ["ADT", "SOURCE_FILE"])
         key = f"C03/next-definition-in/{nxt[0] if nxt else 'none'}" if proper else f"C03/closing-brace-in/{brace[0] if brace else 'none'}"
+        inner = sout[j].split(" ")[0] if j < len(sout) else "none"
+        if inner not in ("none", "") and not proper:
+            # an inner `}` was taken by a construct that never opened it: that construct is the site
+            key = f"C03/closing-brace-in/{inner}"
         res.add_violation(key, bad[:500], {"text_hex": hexs("\n".join(new_texts)), "text": "\n".join(new_texts)[:1500],
                                            "original": "\n".join(texts)[:1500], "victim": v, "damage": log,
                                            "closing_brace_ancestors": aout[2 * j], "next_definition_ancestors": aout[2 * j + 1]})
